@@ -662,7 +662,7 @@ func clipTrace(s string) string {
 
 // TestC15: metadata tables behave as persistent maps and survive persist cycles.
 func TestC15(t *testing.T) {
-	rec := ev.New("C15", "rapid state machine over util/hamt instantiated with the harness's own item type whose hash is part of the generated key (keys sharing exactly 0,5,...,30 low bits with a base hash, a bucket of up to 14 keys sharing all 35 bits the trie uses -> overflow nodes, fully equal hashes). Operations: Mutable of any frozen version, Put, physical Delete, Freeze on up to 3 concurrently open scratch versions; batches on the current chain exactly as db19/meta/meta.go does them (lastMod = chain clock, created clock, tombstone for a possibly persisted item, physical delete only for an item created in the current clock); WriteChain persist cycles each followed by ReadChain into a fresh chain; reopen (continue from the chain read back); one-byte corruption of a chunk. Oracle: one Go map per version (up to 10 versions held), every held version re-checked (Get of every key of the universe, All) after every operation; live entries of every chain read back == model at the last write. Two profiles: 'versions' (map operations dominate) and 'chain' (30..100 operations, mostly batches and write cycles). Non-trivial: >= 8 write cycles that wrote data including a tombstone for a key present in a written chunk, or >= 3 versions held with a physical delete of a key that has a hash-colliding sibling while another version still holds the deleted item; distinct = by operation trace.")
+	rec := ev.New("C15", "rapid state machine over util/hamt instantiated with the harness's own item type whose hash is part of the generated key (keys sharing exactly 0,5,...,30 low bits with a base hash, a bucket of up to 14 keys sharing all 35 bits the trie uses -> overflow nodes, fully equal hashes). Operations: Mutable of any frozen version, Put, physical Delete, Freeze on up to 3 concurrently open scratch versions; batches on the current chain exactly as db19/meta/meta.go does them (lastMod = chain clock, created clock, tombstone for a possibly persisted item, physical delete only for an item created in the current clock); WriteChain persist cycles each followed by ReadChain into a fresh chain; reopen (continue from the chain read back); one-byte corruption of a chunk. Oracle: one Go map per version (up to 10 versions held), every held version re-checked (Get of every key of the universe, All) after every operation; live entries of every chain read back == model at the last write. Two profiles: 'versions' (map operations dominate) and 'chain' (30..100 operations, mostly batches and write cycles). Non-trivial: >= 8 write cycles that wrote data including a tombstone for a key present in a written chunk, or >= 3 versions held with a physical delete of a key that has a hash-colliding sibling while another version still holds the deleted item; distinct = by operation trace. Sub-check 'meta': the same property on db19/meta.Meta itself: 6-40 names, PutNew (create), Drop of tables/views/missing names, Put (schema+info replaced), Mutable+GetRwInfo+LayeredOnto (info chain only, so the info clock runs ahead of the schema clock; schema churn 3/8/22 per case), AddView, RenameTable, Write followed by ReadMeta, reopen (continue from the Meta read back), up to 6 held older Metas; oracle: Tables/Infos/Views/GetRoSchema/GetRoInfo/GetView of the current Meta, of every held Meta and of every Meta read back == map model (schema text, persisted row count and size); non-trivial: >= 3 writes that wrote data, a drop of a persisted table, a drop of a never persisted table and a drop while the two clocks differ.")
 	rec.Assumptions = []string{
 		"a mutable Hamt is not used after Freeze and Mutable is only taken from frozen versions (as every caller does)",
 		"chain updates are serialized (meta.go runs them inside UpdateState): a batch is applied on top of the current chain and installed before the next write",
@@ -672,4 +672,5 @@ func TestC15(t *testing.T) {
 	defer rec.Write()
 	rt.Check(t, rec, "versions", 1200, 18000, func(t *rapid.T) { c15Machine(t, rec, "versions") })
 	rt.Check(t, rec, "chain", 800, 12000, func(t *rapid.T) { c15Machine(t, rec, "chain") })
+	c15Meta(t, rec)
 }
